@@ -6,7 +6,7 @@ from __future__ import annotations
 import ast
 from typing import Dict, List, Optional, Set, Tuple
 
-from ..core import AnalysisError, FuncInfo, Repo, attr_chain, call_name, is_const, unparse, walk_no_nested
+from ..core import deviates, near_text, AnalysisError, FuncInfo, Repo, attr_chain, call_name, is_const, unparse, walk_no_nested
 from ..purity import Purity
 from ..report import Ctx
 from ..skelrules import check_skeleton
@@ -78,7 +78,7 @@ def rule_d1(ctx: Ctx) -> None:
         if ci.aliases.get(alias) == target:
             ctx.ok("C01-D1", f"{ci.where}.{alias}", f"class-body alias of {target}")
         elif alias in ci.assigns:
-            ctx.violation("C01-D1", ci.where, ci.assign_nodes[alias], f"{cname}.{alias} is bound to {unparse(ci.assigns[alias])}, not to {target}", file=ci.module.relpath)
+            ctx.violation("C01-D1", ci.where, ci.assign_nodes[alias], f"{cname}.{alias} is bound to {unparse(ci.assigns[alias])}, not to {target}", file=ci.module.relpath, robust=True)
         else:
             ctx.note(f"{cname}.{alias} alias removed")
     # sibling agreement (Perm._contains / MeshPatt._contains extract to the same skeleton) is
@@ -188,7 +188,7 @@ def rule_memo(ctx: Ctx) -> None:
             on_self = recv is not None and len(recv) == 1 and fi.params and recv[0] == fi.params[0] and fi.cls is not None and fi.cls.name in {c.name for c in repo.subclasses("Perm")} and not fi.is_classmethod and not fi.is_static
             val = node.value if isinstance(node, (ast.Assign, ast.AnnAssign)) else None
             if not on_self:
-                ctx.violation("C01-M1", fi, node, f"search table attribute {attr} is stored on {unparse(t.value)} rather than on the pattern object itself: shared between patterns")
+                ctx.violation("C01-M1", fi, node, f"search table attribute {attr} is stored on {unparse(t.value)} rather than on the pattern object itself: shared between patterns", robust=True)
             elif fi is details and (node in ast.walk(guard) or node is getattr(guard, "_store", None)):
                 ctx.ok("C01-M1", fi.where, "compute-on-miss store on self, guarded by `is None`", node, fi)
             elif fi.name in ("__init__", "__new__") and val is not None and is_const(val, None):
@@ -230,12 +230,12 @@ def rule_memo(ctx: Ctx) -> None:
             other_params.add(a.kwarg.arg)
         extra = (free - bound) & other_params
         if extra:
-            ctx.violation("C01-M2", details, value, f"memoised table depends on {sorted(extra)}, not on the pattern alone")
+            ctx.violation("C01-M2", details, value, f"memoised table depends on {sorted(extra)}, not on the pattern alone", robust=True)
     eff = pur.effects(value_fn)
     reasons = [r for r in eff.reasons if not (r[0] is details and r[2].startswith("stores attribute") and attr is not None and attr in r[2])]
     if reasons:
         for f2, n2, why in reasons:
-            ctx.violation("C01-M2", f2, n2, f"value of the memoised search table is not a pure function of the pattern: {why}", path=[details.where, f2.where])
+            ctx.violation("C01-M2", f2, n2, f"value of the memoised search table is not a pure function of the pattern: {why}", path=[details.where, f2.where], robust=True)
     else:
         ctx.ok("C01-M2", details.where, f"table value is a pure function of self (callees: {sorted(eff.callees)})", value if value is not None else details.node, details)
     for d in eff.dynamic:
@@ -395,14 +395,20 @@ def rule_o1(ctx: Ctx) -> None:
     empties = [st for st in occ.body if isinstance(st, ast.If) and unparse(st.test) in (f"{n_name} == 0", f"not {occ.params[0]}", f"len({occ.params[0]}) == 0")]
     if len(empties) == 1 and [unparse(s) for s in empties[0].body] == ["yield ()", "return"]:
         ctx.ok("C01-O1", occ.where, "the empty pattern occurs exactly once: `yield ()` then return", empties[0], occ)
+    elif len(empties) > 1:
+        raise AnalysisError(f"{occ.where}: several tests for the empty pattern")
     else:
-        ctx.violation("C01-O1", occ, empties[0] if empties else occ.node, "the empty pattern is not reported exactly once (expected `if n == 0: yield (); return`)")
+        deviates(ctx, "C01-O1", occ, empties[0] if empties else occ.node, [unparse(s) for s in empties[0].body] if empties else None, [["yield ()", "return"]],
+                 "the empty pattern is not reported exactly once (expected `if n == 0: yield (); return`)", k=4)
     # --- top-level start
     starts = [st for st in occ.body if isinstance(st, ast.Expr) and isinstance(st.value, ast.YieldFrom) and isinstance(st.value.value, ast.Call) and call_name(st.value.value) == (rec.name,)]
     if len(starts) == 1 and [unparse(a) for a in starts[0].value.value.args] == ["0", "0"]:
         ctx.ok("C01-O1", occ.where, f"search starts at {rec.name}(0, 0)", starts[0], occ)
+    elif len(starts) != 1:
+        raise AnalysisError(f"{occ.where}: how the search is started is not recognised ({len(starts)} `yield from {rec.name}(..)`)")
     else:
-        ctx.violation("C01-O1", occ, starts[0] if starts else occ.node, f"the search does not start with the first pattern entry at the first position ({rec.name}(0, 0))")
+        deviates(ctx, "C01-O1", occ, starts[0], ", ".join(unparse(a) for a in starts[0].value.value.args), ["0, 0"],
+                 f"the search does not start with the first pattern entry at the first position ({rec.name}(0, 0))", k=2)
     # --- the loop
     loops = [st for st in rec.body if isinstance(st, ast.While)]
     if len(loops) != 1 or not is_const(loops[0].test, True):
@@ -422,15 +428,22 @@ def rule_o1(ctx: Ctx) -> None:
     good_step = len(stores) == 1 and ((not stores[0][2] and unparse(stores[0][1]) in (f"{i} + 1", f"1 + {i}")) or (stores[0][2] and isinstance(stores[0][0].op, ast.Add) and unparse(stores[0][1]) == "1"))
     if good_step and stores[0][0] is lp.body[-1]:
         ctx.ok("C01-O1", rec.where, f"the candidate position `{i}` advances by exactly one at the end of every round and is changed nowhere else", stores[0][0], rec)
+    elif len(stores) == 1 and not good_step and near_text(unparse(stores[0][1]), ["1"] if stores[0][2] else [f"{i} + 1"], 2):
+        ctx.violation("C01-O1", rec, stores[0][0], f"the candidate position `{i}` is not advanced by exactly +1 once per round (at the end of the loop body): positions could be skipped, repeated or revisited")
+    elif not stores:
+        ctx.violation("C01-O1", rec, lp, f"the candidate position `{i}` is never advanced in the search loop")
     else:
-        ctx.violation("C01-O1", rec, stores[0][0] if stores else lp, f"the candidate position `{i}` is not advanced by exactly +1 once per round (at the end of the loop body): positions could be skipped, repeated or revisited")
+        raise AnalysisError(f"{rec.where}: how the candidate position `{i}` advances is not recognised")
     # recursion and report
     recs = [n for n in ast.walk(lp) if isinstance(n, ast.Call) and call_name(n) == (rec.name,)]
     if len(recs) == 1 and [unparse(a) for a in recs[0].args] == [f"{i} + 1", f"{k} + 1"]:
         ctx.ok("C01-O1", rec.where, f"the next pattern entry is searched from position {i} + 1 on: index tuples are strictly increasing and enumerated in lexicographic order", recs[0], rec)
+    elif len(recs) > 1:
+        raise AnalysisError(f"{rec.where}: several recursive calls")
     else:
         got = [unparse(a) for a in recs[0].args] if recs else None
-        ctx.violation("C01-O1", rec, recs[0] if recs else lp, f"the recursive search continues with {got}; it must continue with ({i} + 1, {k} + 1) so that indices strictly increase and every pattern entry is matched once")
+        deviates(ctx, "C01-O1", rec, recs[0] if recs else lp, ", ".join(got) if got else None, [f"{i} + 1, {k} + 1"],
+                 f"the recursive search continues with {got}; it must continue with ({i} + 1, {k} + 1) so that indices strictly increase and every pattern entry is matched once")
     # record-before-report
     idx_store = [st for st in ast.walk(lp) if isinstance(st, ast.Assign) and isinstance(st.targets[0], ast.Subscript) and unparse(st.targets[0].slice) == k and unparse(st.value) == i]
     reports = [n for n in ast.walk(lp) if isinstance(n, ast.Yield)]
@@ -445,8 +458,10 @@ def rule_o1(ctx: Ctx) -> None:
         after = blk[blk.index(idx_store[0]) + 1:] if blk else []
         if any(any(sub is reports[0] for sub in ast.walk(s)) for s in after) and any(any(sub is recs[0] for sub in ast.walk(s)) for s in after) if recs else False:
             ctx.ok("C01-O1", rec.where, f"`{arr}[{k}] = {i}` is recorded before the tuple is reported (a fresh tuple copy) or extended", idx_store[0], rec)
-        else:
+        elif blk is not None and recs and any(any(sub is reports[0] or sub is recs[0] for sub in ast.walk(s)) for s in blk[:blk.index(idx_store[0])]):
             ctx.violation("C01-O1", rec, idx_store[0], "the accepted index is recorded after the tuple is reported/extended")
+        else:
+            raise AnalysisError(f"{rec.where}: the order of recording the index and reporting / extending the tuple is not recognised")
         # report when exactly one entry was still needed
         guard = None
         for node in ast.walk(lp):
@@ -458,9 +473,12 @@ def rule_o1(ctx: Ctx) -> None:
             if g in (f"{n_name} - {k} == 1", f"{k} == {n_name} - 1", f"{k} + 1 == {n_name}"):
                 ctx.ok("C01-O1", rec.where, f"a tuple is reported exactly when its last entry has just been placed ({g})", guard, rec)
             else:
-                ctx.violation("C01-O1", rec, guard, f"a tuple is reported when `{g}`; it must be reported exactly when the last of the {n_name} entries has been placed")
+                deviates(ctx, "C01-O1", rec, guard, g, [f"{n_name} - {k} == 1", f"{k} == {n_name} - 1", f"{k} + 1 == {n_name}"],
+                         f"a tuple is reported when `{g}`; it must be reported exactly when the last of the {n_name} entries has been placed", k=2)
+    elif not idx_store and len(reports) == 1:
+        ctx.violation("C01-O1", rec, lp, "the accepted index is not recorded as indices[k] = i before the tuple is reported")
     else:
-        ctx.violation("C01-O1", rec, lp, "the accepted index is not recorded as indices[k] = i and reported as tuple(indices)")
+        raise AnalysisError(f"{rec.where}: how the accepted index is recorded and the tuple reported is not recognised")
     # no other reporting path: besides `yield ()` for the empty pattern and the search itself nothing is yielded,
     # and the only other early exit is "pattern longer than the target -> nothing"
     other_yields = [n for n in walk_no_nested(occ.node) if isinstance(n, (ast.Yield, ast.YieldFrom))
@@ -474,7 +492,8 @@ def rule_o1(ctx: Ctx) -> None:
             if t.startswith(f"{n_name} > len(") or t.endswith(f") < {n_name}"):
                 ctx.ok("C01-O1", occ.where, "a pattern longer than the target has no occurrence (the only other early exit)", st, occ)
             else:
-                ctx.violation("C01-O1", occ, st, f"the search is abandoned without reporting anything when `{t}`; only a pattern strictly longer than the target has no occurrence")
+                deviates(ctx, "C01-O1", occ, st, t, [f"len({occ.params[1]}) < {n_name}", f"len(self) < {n_name}"],
+                         f"the search is abandoned without reporting anything when `{t}`; only a pattern strictly longer than the target has no occurrence", k=2)
 
 
 _OLD_RUN = run
@@ -527,7 +546,7 @@ def rule_m4(ctx: Ctx) -> None:
                 for t in tgts:
                     for leaf in (t.elts if isinstance(t, ast.Tuple) else [t]):
                         if isinstance(leaf, ast.Attribute):
-                            ctx.violation("C01-M4", f, node, f"the search stores `{unparse(leaf)}`: state that outlives the call is shared by every (possibly still running) search with the same object")
+                            ctx.violation("C01-M4", f, node, f"the search stores `{unparse(leaf)}`: state that outlives the call is shared by every (possibly still running) search with the same object", robust=True)
                         if isinstance(leaf, ast.Subscript):
                             base = leaf.value
                             while isinstance(base, ast.Subscript):
@@ -545,7 +564,7 @@ def rule_m4(ctx: Ctx) -> None:
             ctx.ok("C01-M4", f.where, f"`{base}` (mutated during the search) is created afresh by every call: {unparse(vals[0])[:40]}", node, f)
         else:
             origin = unparse(vals[0])[:60] if vals else "a parameter / outer object"
-            ctx.violation("C01-M4", f, node, f"the search mutates `{base}`, which is not created by this call (it comes from `{origin}`): two live listings with the same pattern object overwrite each other's state")
+            ctx.violation("C01-M4", f, node, f"the search mutates `{base}`, which is not created by this call (it comes from `{origin}`): two live listings with the same pattern object overwrite each other's state", robust=True)
     if not mutated:
         ctx.ok("C01-M4", occ.where, "the search mutates nothing")
 
